@@ -375,7 +375,11 @@ func (server *GripServer) Serve(pctx context.Context) error {
 		}
 	} else {
 		gripql.RegisterConfigureServer(grpcServer, &nullPluginServer{})
-		err = gripql.RegisterConfigureHandlerClient(ctx, grpcMux, gripql.NewConfigureDirectClient(&nullPluginServer{}))
+		err = gripql.RegisterConfigureHandlerClient(ctx, grpcMux, gripql.NewConfigureDirectClient(
+			&nullPluginServer{},
+			gripql.DirectUnaryInterceptor(unaryAuthInt),
+			gripql.DirectStreamInterceptor(streamAuthInt),
+		))
 		if err != nil {
 			return fmt.Errorf("registering plugin endpoint: %v", err)
 		}
